@@ -11,8 +11,8 @@
 (*             enc(v) and at least one would differ from its input          *)
 (*  Catalogue  identity, zero identifier / signing key, scalar >= order,    *)
 (*             small-order and mixed-order points, non-canonical field      *)
-(*             elements, wrong length, wrong version, foreign suite id are  *)
-(*             rejected                                                     *)
+(*             elements, wrong length, wrong version, foreign suite id, a   *)
+(*             fixed-size field shortened inside a container are rejected   *)
 (* For the toy suite the whole 2^16 input space of each primitive is        *)
 (* enumerated and the acceptance set must equal the codec specification's.  *)
 EXTENDS FrostCodec, TLC, Json, IOUtils
@@ -24,7 +24,7 @@ tvars == <<l, bad>>
 E == Rec[l]
 Fld(e, f) == f \in DOMAIN e
 
-Rejected == {"identity", "ge_order", "small_order", "mixed_order", "noncanon", "len", "version", "suite_id"}
+Rejected == {"identity", "ge_order", "small_order", "mixed_order", "noncanon", "len", "version", "suite_id", "short_field"}
 MustReject(e) == e.tag \in Rejected \/ (e.tag = "zero" /\ e.class \in {"id", "sk"})
 FixedSize(e) == e.class # "container" /\ e.form = "bin"
 
@@ -37,6 +37,8 @@ DecLaws(e) ==
   \cup (IF FixedSize(e) /\ e.accepted /\ (~Fld(e, "reenc") \/ e.reenc # e.input) THEN {"noncanonical_accepted"} ELSE {})
   \cup (IF MustReject(e) /\ e.accepted THEN {"accepted_" \o e.tag} ELSE {})
   \cup (IF e.tag = "truncated" /\ e.accepted /\ Fld(e, "same") /\ e.same THEN {"truncation_equal"} ELSE {})
+  \* no second byte string decodes to the value a container was encoded from
+  \cup (IF Fld(e, "alias") /\ e.alias THEN {"alias_accepted"} ELSE {})
 
 \* the toy suite's acceptance sets, from the codec specification (field of the event)
 AccSpec(class, q) ==
